@@ -188,6 +188,8 @@ def _classify(fut, kind, status_name):
             return "noack"
         if "I can't even" in s:
             return "errword:" + s.split(":")[-1].strip()
+        if "closed by gateway" in s:
+            return "peerclosed"
         return "brokenpipe:" + s
     if isinstance(e, (TimeoutError, asyncio.TimeoutError)):
         return "timeout"
@@ -240,7 +242,8 @@ async def _impl(plan, ops):
     def report():
         t, kind = pending
         cl = "idle" if t is None or t.done() else ("ack" if kind == "write" else "read")
-        q = ";".join(_show_item(x) for x in conn._read_queue._queue) or "-"
+        # (None = the end-of-stream marker the reader task leaves behind; the model keeps it as the `eof` flag)
+        q = ";".join(_show_item(x) for x in conn._read_queue._queue if x is not None) or "-"
         o = ";".join(f"{_ms(ts)}:{b.hex() or '-'}" for ts, b in writer.chunks) or "-"
         d = ";".join(f"{ts}:{r}" for ts, r in done) or "-"
         return f"c={1 if conn._closed else 0} t={_ms(loop.time())} cl={cl} q={q} out={o} done={d}"
@@ -576,6 +579,12 @@ def corpus():
     P("length-field-upper-half:dT,dT", [["F", [["dT", fr(1, bytes([DST, SRC]) + big).hex()], ["dT", a["dT"].hex()]], [70000]], ["A", 3]] + reads(2))
     # end of stream while blocked in read with a caller timeout (C08 territory, seen: TimeoutError, flag not set)
     P("eof-while-blocked-in-read", [["R", 200], ["A", 10], ["E"], ["A", 300], ["R", 50], ["A", 60]])
+    # ... without caller timeout (C08: the blocked consumer is woken by the end-of-stream marker), during the ack wait,
+    # and with frames still queued in front of the marker
+    P("eof-while-blocked-in-read-no-timeout", [["R", None], ["A", 10], ["E"], ["A", 300], ["R", 50], ["A", 60]])
+    P("eof-during-ack-wait", [["W", rdbi.hex(), None], ["A", 10], ["E"], ["A", 1100], ["R", 50], ["A", 60]])
+    P("eof-behind-queued-frames", [["F", [["dT", a["dT"].hex()], ["dO", a["dO"].hex()]], []], ["A", 5], ["E"], ["A", 5],
+                                   ["W", REQ_SHORT.hex(), None], ["A", 20]] + reads(2))
     return out
 
 
@@ -854,8 +863,8 @@ def run(ctx):
     rep = run_impl(plan)
     ctx.notes["eof_while_read_blocked_without_caller_timeout"] = (
         rep[-1] if rep and rep[-1].startswith("c=") else str(rep[-1:]))
-    ctx.notes["eof_note"] = ("after end-of-stream the reader task ends, `_closed` stays False and a read() without caller timeout "
-                             "stays pending (cl=read above, 100 s later); with a caller timeout it ends in TimeoutError - see C08")
+    ctx.notes["eof_note"] = ("after end-of-stream the reader task ends and leaves a marker in the queue: `_closed` stays False, frames "
+                             "already queued are still handed out, then read() / the ack wait end with BrokenPipeError at once - see C08")
 
 
 def framing(ctx):
